@@ -29,6 +29,7 @@ RULE = ("direct-driven histories on a real Models (n=1..4, every admissible "
 RULE += ("  Also: initial sets made asymmetric by bounds on / near x0; long histories (130 consecutive replacements) in which EVERY update is compared in floating point with 'model before + least-Frobenius-norm interpolant of the residual on the new set'. Bounds are relative to the magnitude of the Hessian representation (explicit part plus individual implicit terms).")
 RULE += (" Base shifts to arbitrary points of the region.")
 RULE += (' The Models-level views (fun/con values, gradients, curvatures) are probed at fixed points after every update; function values at barrier scale.')
+RULE += (" Family real: in complete runs, TrustRegion.shift_x_base leaves the Hessian, the value and the gradient at the new base of every model unchanged (tap pair on the framework method).")
 ASSUMPTIONS = [
     "bounds: fresh N*eps*cond2*|z|, one-step N*eps*(cond2*max(|z|,|d|) + "
     "|old coefficients|) in the balanced scaling; held <= 1e3x, violation > "
@@ -38,7 +39,7 @@ ASSUMPTIONS = [
 REQUIRED = {"fresh_models_checked": 200, "one_step_checks": 1000,
             "view_probes": 3000, "shift_probes": 100}
 MIN_NONTRIVIAL = {"quick": 60, "thorough": 500}
-PLAN = [("driven", 320, 4800), ("long", 24, 200)]
+PLAN = [("driven", 320, 4800), ("long", 24, 200), ("real", 60, 900)]
 EPS = np.finfo(float).eps
 
 
@@ -329,9 +330,122 @@ def run_long(case):
                       maxes={k: v for k, v in jd.worst.items()})
 
 
+class ShiftMonitor:
+    """Real runs: what the FRAMEWORK does when it moves the base point
+    (TrustRegion.shift_x_base) leaves every model the same function - same
+    Hessian, same value and gradient at the new base - up to the rounding of
+    the re-expansion.  (A base shift that rebuilt the models would replace
+    the symmetric-Broyden history by fresh interpolants.)"""
+
+    def __init__(self):
+        self.viols = []
+        self.shifts = 0
+        self.judged = 0
+        self.worst = 0.0
+        self.pre = None
+
+    @staticmethod
+    def snap(tr):
+        m = tr.models
+        itp = m.interpolation
+        x = np.array(tr.x_best, dtype=float, copy=True)
+        out = []
+        for name, q, _ in all_models(m):
+            habs = np.abs(q._e_hess) + (np.abs(itp.xpt) * np.abs(
+                q._i_hess)) @ np.abs(itp.xpt).T
+            out.append((name, np.array(q.hess(itp), dtype=float),
+                        float(np.max(habs, initial=0.0)),
+                        float(q(x, itp)), np.array(q.grad(x, itp), float),
+                        float(interp.mag(q, itp, x)),
+                        float(np.max(np.abs(q._grad), initial=0.0))))
+        return x, out
+
+    def on_pre(self, run, tr, what, args):
+        if what == "shift_x_base":
+            self.pre = self.snap(tr)
+
+    def on_post(self, run, tr, what, args, out):
+        if what != "shift_x_base" or self.pre is None:
+            return
+        (x, before), self.pre = self.pre, None
+        itp = tr.models.interpolation
+        self.shifts += 1
+        dist = float(np.linalg.norm(x - itp.x_base)) + float(
+            np.max(np.linalg.norm(itp.xpt, axis=0)))
+        for (name, h0, ha0, v0, g0, m0, gm0), (_, q, _) in zip(
+                before, all_models(tr.models)):
+            h1 = np.array(q.hess(itp), dtype=float)
+            habs = np.abs(q._e_hess) + (np.abs(itp.xpt) * np.abs(
+                q._i_hess)) @ np.abs(itp.xpt).T
+            ha = max(ha0, float(np.max(habs, initial=0.0)))
+            hmax = max(float(np.max(np.abs(h0), initial=0.0)),
+                       float(np.max(np.abs(h1), initial=0.0)))
+            if not np.isfinite(ha) or ha > 1e8 * max(hmax, 1e-300):
+                continue        # representation dominated by cancellation
+            self.judged += 1
+            v1 = float(q(x, itp))
+            g1 = np.array(q.grad(x, itp), dtype=float)
+            m1 = float(interp.mag(q, itp, x))
+            tests = (
+                ("Hessian", float(np.max(np.abs(h1 - h0), initial=0.0)),
+                 ha),
+                ("value at the new base", abs(v1 - v0), max(m0, m1)),
+                ("gradient at the new base", float(np.max(np.abs(g1 - g0),
+                                                           initial=0.0)),
+                 max(gm0, float(np.max(np.abs(q._grad), initial=0.0)))
+                 + ha * dist))
+            for what_, err, scale in tests:
+                r = err / (1e4 * EPS * scale) if scale > 0 else (
+                    0.0 if err == 0 else np.inf)
+                self.worst = max(self.worst, r)
+                if r > 1e3 and len(self.viols) < 3:
+                    self.viols.append(V(
+                        "framework_shift_changes_model",
+                        f"TrustRegion.shift_x_base (shift number "
+                        f"{self.shifts}) changed the {what_} of model "
+                        f"'{name}' by {err:.3g} (magnitude {scale:.3g})",
+                        mechanism="framework_shift", model=name))
+
+    def attach(self, r, rec=None):
+        r.on("tr.mut.pre", self.on_pre)
+        r.on("tr.mut", self.on_post)
+
+
+def run_real(case):
+    from vlib import gen, mrun
+    rng = e2e.rng_of(ID, case)
+    n = int(rng.integers(2, 5))
+    spec = gen.general(rng, n=n, con=str(rng.choice(["none", "nl", "none"])),
+                       obj_kinds=("rosen", "quad", "sinq", "exp"),
+                       bound_patterns="none", with_callback=False,
+                       opt_allow=(), maxfev=(250, 500), xunit=False)
+    spec["x0"] = (np.asarray(spec["x0"]) * float(rng.choice(
+        [1.0, 3.0]))).tolist()
+    if rng.random() < 0.4:
+        spec["options"]["nb_points"] = int(rng.integers(
+            n + 2, (n + 1) * (n + 2) // 2 + 1))
+    for k in ("rtype", "scribble"):
+        spec.pop(k, None)
+    mon = ShiftMonitor()
+    rec = mrun.run(spec, setup=mon.attach)
+    counts = e2e.base_counts(rec)
+    counts["framework_shifts"] = mon.shifts
+    counts["framework_shift_models_judged"] = mon.judged
+    viols = list(mon.viols)
+    for v in viols:
+        v["witness"]["spec"] = spec
+    nt = None
+    if mon.shifts >= 3:
+        nt = f"real|n{n}|{spec['con_kind']}|shifts{min(mon.shifts, 6)}"
+    return e2e.record(case, viols, nt=nt, tags=["fam:real"], counts=counts,
+                      maxes={"framework_shift_ratio": mon.worst})
+
+
 def run_case(case):
     if case["fam"] == "long":
         return run_long(case)
+    if case["fam"] == "real":
+        return run_real(case)
     rng = e2e.rng_of(ID, case)
     jd = Judge()
     with ctx.suspended(), warnings.catch_warnings():
